@@ -45,11 +45,55 @@ _ASSUME = ["root contexts are not cancelled from outside while installed",
            "the nonce does not wrap (2^32 restarts)"]
 _TECH = "Coq inductive invariant over a gate-level interleaving model + schedule-controlled differential correspondence (synctest) against the Go code"
 
+_COQ8 = _COQ + ["RefCount/ProofsC08.v", "RefCount/ProofsC08b.v"]
+
 PROPS = {
-    "C08": dict(pid=8, coq=_COQ + ["RefCount/Props_C08.v"], props_file="RefCount/Props_C08.v", models=_MODELS, trusted=_TRUSTED, assumptions=_ASSUME,
-                meta=dict(text="", note=NOTE, technique=_TECH)),
-    "C09": dict(pid=9, coq=_COQ + ["RefCount/Props_C09.v"], props_file="RefCount/Props_C09.v", models=_MODELS, trusted=_TRUSTED, assumptions=_ASSUME,
-                meta=dict(text="", note=NOTE, technique=_TECH)),
-    "C10": dict(pid=10, coq=_COQ + ["RefCount/Props_C10.v"], props_file="RefCount/Props_C10.v", models=_MODELS, trusted=_TRUSTED, assumptions=_ASSUME,
-                meta=dict(text="", note=NOTE, technique=_TECH)),
+    "C08": dict(pid=8, coq=_COQ8 + ["RefCount/ProofsCodec.v", "RefCount/Props_C08.v"], props_file="RefCount/Props_C08.v", models=_MODELS, trusted=_TRUSTED, assumptions=_ASSUME,
+                meta=dict(
+                    text="Coq theorems over ALL well-formed event lists of a gate-level model of RefCount (any number of references, resolve "
+                         "goroutines, consumers; every interleaving of API sections, first-select choices, resolver returns, store sections, "
+                         "Release segments, synchronous and asynchronous released()): an inductive invariant over the release log, the stored "
+                         "value, the goroutine nonces and the references' last notifications gives: every release function is called at most once "
+                         "(NoDup of the log); at each call the target container does not hold the value and no reference in the set still has it as "
+                         "last notification (target cleared, callbacks told, resolve context cancelled, then release: the order is read off "
+                         "clearResolvedState); with the ghost 'returned a release function', a release function is uncalled iff it belongs to the "
+                         "stored value or to a result at its store gate, and the stored value is kept only with context + reference (or "
+                         "keep-unreferenced and no error) => no leak; per step, a release function is called only by SetContext with a different "
+                         "context, a released() section of the current generation, a removeRef section that leaves no reference (and not "
+                         "keep+resolved+no error), or the store section of a superseded goroutine (its own, never delivered result). The codec "
+                         "produces only generation-unique resolver values (lemma about Spec.hstep). Model tied to the code by scheduled differential "
+                         "correspondence; monitors (once; target/refs at release; allowed causes; no leak) run on the implementation's observations.",
+                    note=NOTE + "Resolver values are generation-unique (g+1) and never empty; root contexts are never cancelled from outside. "
+                                "'Shortly after' = by an enabled internal step (store section) or within the same critical section. Gate placement trusted.",
+                    technique=_TECH)),
+    "C09": dict(pid=9, coq=_COQ + ["RefCount/ProofsC08.v", "RefCount/ProofsC09.v", "RefCount/Props_C09.v"], props_file="RefCount/Props_C09.v", models=_MODELS, trusted=_TRUSTED, assumptions=_ASSUME,
+                meta=dict(
+                    text="Coq theorems over ALL event lists of the same model: the done-channel chain invariant (every resolve goroutine waits on "
+                         "its predecessor's done channel, which closes only when that goroutine and all earlier ones have finished) => at most one "
+                         "goroutine between entering the resolver and the end of its store section (the pinned code's overlap, D10, is a _refuted "
+                         "theorem and a corpus history). Progress as quiescence safety: in every reachable state with no enabled internal step, a "
+                         "context and a reference, some goroutine is inside the resolver or the stored result (value or error) is in the target "
+                         "containers and is the last notification of every reference with a callback; delivery holds in every reachable resolved "
+                         "state, hence for references added later. released() of the stored generation clears value and containers and starts a "
+                         "goroutine of a new generation. No event list makes the model panic (AddRef(nil) on a resolved container: D9 repaired; the "
+                         "pinned variant is a _refuted theorem); every API call is one total section (no deadlock). Monitors on the implementation's "
+                         "observations: <= 1 goroutine in the resolver, AddRef never panics, quiescent => in progress or delivered, released() restarts.",
+                    note=NOTE + "Liveness is quiescence safety (fairness of the Go scheduler is not modelled). 'No deadlock' = every API call is a single "
+                                "mutex section that never waits; the lock discipline itself is C13's obligation.",
+                    technique=_TECH)),
+    "C10": dict(pid=10, coq=_COQ8 + ["RefCount/ProofsC10.v", "RefCount/Props_C10.v"], props_file="RefCount/Props_C10.v", models=_MODELS, trusted=_TRUSTED, assumptions=_ASSUME,
+                meta=dict(
+                    text="Coq theorems about the same model (consumers = Wait / ResolveWithReleased callers with their reference callbacks): from "
+                         "every reachable state, a step that calls a release function while some reference (in particular the returned one) stays "
+                         "in the set is an invalidation (SetContext with a different context, released() of the current generation) or the store "
+                         "section of a superseded goroutine releasing its own never-delivered result; callReleasedOnce: the released callback "
+                         "fires at most once along every event list (invariant over the consumer table), an invalidation notified after the value "
+                         "was returned fires it - at once if the reference was already released, else through the spawned goroutine whose section "
+                         "fires exactly once - and nothing moves the count afterwards; the resolver's error or Canceled is passed through with the "
+                         "zero value after releasing the reference. Monitors on the implementation's observations: no release of a held, "
+                         "not-invalidated value; fired <= 1; at quiescence an invalidated holder's callback has fired exactly once.",
+                    note=NOTE + "PARTIAL: the Access clauses (callback context cancelled on change, restart with the new value) are not in the model; "
+                                "nothing is claimed about Access. Not proved in Coq (checked by monitor clause 10.1 on every trace): that a consumer's "
+                                "returned value is one of the delivered generation values.",
+                    technique=_TECH)),
 }
